@@ -17,12 +17,14 @@ coordinate of the volumes of the cross-sections, clipped at the reference.
 * about the code (`hypervolumeCode` = NDS pre-filter of C11, shift by the reference,
   `preProcess`, `hvRecursive`): one and two objectives are proved equal to the specification end
   to end (`C12_1d`, `C12_2d_sweep`, `C12_1d_code`, `C12_2d_code`), for every argsort order;
-* **partial** (`C12_nd_code_partial`): for ≥ 3 objectives the dimension-sweep branch with its
-  `ignore` flags, cached `area`/`volume` arrays and shared `bounds` (`Model.levelN`) is an
-  executable model that the correspondence run compares with the implementation and with `hv` on
-  every generated case; it is not proved equal to `hv`.  What is proved is the recursion it
-  optimises (last coordinate outermost = `hvLast = hv`) and the two repaired defects as
-  kernel-evaluated regression examples.
+* three objectives (`C12_3d_code`): the general dimension-sweep branch at its top level, calling
+  the 2-D sweep, is proved equal to the specification end to end as well;
+* **partial** (`C12_nd_code_partial`): for ≥ 4 objectives the nested dimension-sweep with its
+  `ignore` flags set by outer levels, cached `area`/`volume` arrays and shared `bounds`
+  (`Model.levelN` calling itself) is an executable model that the correspondence run compares with
+  the implementation and with `hv` on every generated case; it is not proved equal to `hv`.
+  What is proved is the scheme it optimises (`C12_sweep_scheme`, `C12_slicing_order`) and the
+  two repaired defects as kernel-evaluated regression examples.
 
 Side-effect freedom is an observation on the real code (the caller's array and reference are
 compared before/after every call in `harness/c12.py`); in the model it is immediate: every
@@ -163,20 +165,45 @@ theorem C12_2d_code (r0 r1 : Rat) (pts : List Vec) (order : List Nat)
     hypervolumeCode pts [r0, r1] order = some (hv [r0, r1] pts) :=
   hypervolumeCode_2d r0 r1 pts order ho.1 ho.2 hrect hle
 
+/-- **C12 (three objectives, the whole function).**  Here the general dimension-sweep branch
+runs at its top level (`dimIndex = 2`): unlink loop, area initialisation, `ignore` flags,
+re-insertion loop with the `area`/`volume`/`bounds` bookkeeping, each step calling the 2-D sweep on
+the nodes linked so far.  `hbig` states that no shifted last coordinate reaches the code's own
+sentinel `bounds = -1.0e308` (true for every input whose volume is a finite double). -/
+theorem C12_3d_code (r0 r1 r2 : Rat) (pts : List Vec) (order : List Nat)
+    (ho : OrderOK pts.length order) (hrect : Rect 3 pts)
+    (hle : ∀ p ∈ pts, wdVec p [r0, r1, r2] = true) (hbig : ∀ p ∈ pts, negInf < co p 2 - r2) :
+    hypervolumeCode pts [r0, r1, r2] order = some (hv [r0, r1, r2] pts) :=
+  hypervolumeCode_3d r0 r1 r2 pts order ho.1 ho.2 hrect hle hbig
+
+/-- **C12 (the sweep scheme, any number of objectives).**  What every level of the dimension
+sweep adds up — points sorted by the swept coordinate (ties allowed), each slab = distance to the
+next point × volume of the cross-section spanned by the points seen so far — is the hypervolume,
+provided the cross-section volumes are exact.  (`levelN` is this sum with the cross-section volumes
+taken from the recursive call, from the cached `area` of the kept prefix, or copied from the
+predecessor for `ignore`d nodes.) -/
+theorem C12_sweep_scheme (r : Rat) (rs : List Rat) (q : Vec) (rest : List Vec)
+    (hs : (q :: rest).Pairwise (fun a b => hd a ≤ hd b)) (hr : ∀ p ∈ q :: rest, hd p ≤ r)
+    (hne : ∀ p ∈ q :: rest, p ≠ []) :
+    hv (r :: rs) (q :: rest) = sweepSum (fun X => hv rs (X.map List.tail)) r [] q rest :=
+  hv_eq_sweepSum r rs q rest hs hr hne
+
 /-
 TARGET (not proved), any number of objectives `m = ref.length ≥ 1`:
 
   theorem C12_nd_code (ref : List Rat) (pts : List Vec) (order : List Nat)
       (hm : 0 < ref.length) (ho : OrderOK pts.length order) (hrect : Rect ref.length pts)
-      (hle : ∀ p ∈ pts, wdVec p ref = true) :
+      (hle : ∀ p ∈ pts, wdVec p ref = true) (hbig : …above the sentinel…) :
       hypervolumeCode pts ref order = some (hv ref pts)
 
-Missing for `m ≥ 3`: an invariant for `levelN` relating the cached `area[d]`/`volume[d]` of the
-kept prefix (selected by `bounds[d]`) and the `ignore` flags to the cross-section volumes — the
-part of the implementation in which both defects repaired by 9767936 / ecd8f06 were found.
+Proved for `m = 1, 2, 3` (`C12_1d_code`, `C12_2d_code`, `C12_3d_code`).  Missing for `m ≥ 4`: there
+the recursive call is itself `levelN`, which reuses the cached `area[d]`/`volume[d]` of the prefix
+kept by `bounds[d]` and skips nodes whose `ignore` flag was set by an outer level — an invariant
+relating those caches and flags to the cross-section volumes is needed.  This is the part of the
+implementation in which both defects repaired by 9767936 / ecd8f06 were found.
 -/
 
-/-- **C12 (≥ 3 objectives, partial).**  Everything around the unproved sweep is proved: the
+/-- **C12 (≥ 4 objectives, partial).**  Everything around the unproved sweep is proved: the
 pre-filter and the shift preserve the hypervolume, and the recursion scheme the sweep implements
 (slice on the last coordinate, recurse on the cross-sections) computes `hv`.  So
 `hypervolumeCode pts ref order = some (hv ref pts)` follows as soon as
@@ -220,6 +247,13 @@ example : OrderOK 3 [2, 0, 1] := by
     rcases this with rfl | rfl | rfl <;> simp
   · intro i hi; simp at hi; omega
 example : meets [[1, 3]] [[3, 1], [2, 2]] = [[3, 3], [2, 3]] := by decide +kernel
+-- hypotheses of C12_3d_code: a rectangular 3-objective set below the reference, above the sentinel
+example : (∀ p ∈ [[0, 3, 3], [3, 0, 3], [3, 3, 0], [4, 0, 0]], wdVec p [4, 4, 4] = true) ∧
+    (∀ p ∈ ([[0, 3, 3], [3, 0, 3], [3, 3, 0], [4, 0, 0]] : List Vec), negInf < co p 2 - 4) := by
+  decide +kernel
+example : hv [4, 4, 4] [[0, 3, 3], [3, 0, 3], [3, 3, 0], [4, 0, 0]] = 10 ∧
+    sweepSum (fun X => hv [4, 4] (X.map List.tail)) 4 [] [0, 3, 3] [[3, 0, 3], [3, 3, 0], [4, 0, 0]] = 10 := by
+  decide +kernel
 
 /-! ### regression: the two defects of the pinned `_hv.py` (model with the repairs switched off) -/
 
